@@ -453,3 +453,25 @@ PROPS["C20"] = {
                     "the transport accepts what the connection writes (stalled writers: known finding)",
                     "an event at the same instant as an expiry is handled after it"],
 }
+
+
+# C14: connection admission (all interleavings of the counter's atomic steps), the per-connection in-flight gate and slot release,
+# tied by the `limits` suite on the real server (counters read through hook H2)
+PROPS["C14"]["theorems"] = ["Narwhal.Theorems.C14", "Narwhal.Theorems.C14Limits"]
+PROPS["C14"]["audit_files"] = list(PROPS["C14"]["audit_files"]) + ["Narwhal/Model/Limits.lean"]
+PROPS["C14"]["expect_theorems"] = list(PROPS["C14"]["expect_theorems"]) + [
+    "Narwhal.Limits.C14_conn_admission", "Narwhal.Limits.C14_conn_counter_exact", "Narwhal.Limits.C14_conn_admitted_below_limit",
+    "Narwhal.Limits.C14_open_bound", "Narwhal.Limits.C14_open_refused_iff", "Narwhal.Limits.C14_close_bound", "Narwhal.Limits.C14_close_frees",
+    "Narwhal.Limits.C14_inflight_bound", "Narwhal.Limits.C14_release_frees"]
+PROPS["C14"]["suites"]["limits"] = {"kind": "lines", "nvh_suite": "limits", "driver_suite": "limits", "op_prefixes": ["l "],
+                                    "cases": {"quick": 300, "thorough": 6000}, "oracle_tags": ["C14"]}
+PROPS["C14"]["level_text"] = (
+    "Proved in Lean for every limit value (0 and 1 included): JOIN is admitted only below max_clients, max_subscriptions and (when creating) "
+    "max_channels; config changes stay within the server caps; an accepted ACL has at most max_clients entries; accepted payloads are within server "
+    "and channel limits; for every interleaving of the connection counter's atomic operations on any number of threads at most max_connections "
+    "connections run, the counter equals the number of connections that hold it and is zero when nobody is left; a connection is refused exactly at "
+    "the limit; after any burst of pipelined requests no connection has more than max_inflight_requests handlers executing (an over-limit burst "
+    "closes the connection), and slots are free again when handlers finish or the connection goes away. Tied by the srv / churn suites and by the "
+    "limits suite on the real server: admission, refusal bytes, peak executing handlers under a parked modulator, and the manager's own counters and "
+    "pool occupancy (hook H2) after clean, mid-frame, mid-payload and garbage closes.")
+PROPS["C14"]["rule"] = SRV_RULE + "; limits suite: max_connections 0..6, max_inflight 1..5, opens beyond the limit, bursts of 1..limit+3 pipelined JOINs in one write under a parked modulator, releases, four kinds of close, counters compared after every step"
